@@ -12,7 +12,7 @@ def components():
 
 
 def oracles_():
-    return [oracles.RoundTrip(), comps_doc.RoundTripX(), comps_doc.RoundTripMeta()]
+    return [oracles.RoundTrip(), comps_doc.RoundTripX(), comps_doc.RoundTripMeta(), comps_doc.RoundTripTypes()]
 
 MANIFEST = {
     "text": "Coq theorems: (XML) the text printer/lexer pair is an exact round trip for every string of accepted characters of any "
@@ -40,7 +40,12 @@ MANIFEST = {
             "libyang's dump; the executable hypotheses of the theorems are evaluated on every case. Whole documents for what the "
             "models do not cover (all formats x printer options; opaque nodes from XML / JSON / the API, anydata / anyxml of every "
             "value type, RPC / action / notification trees, values around the LYB chunk limit, metadata everywhere) are checked by "
-            "the API round-trip oracles RoundTrip, RoundTripX, RoundTripMeta (search).",
+            "the API round-trip oracles RoundTrip, RoundTripX, RoundTripMeta (search). VALUE TYPES: RoundTripTypes - a family of "
+            "three modules in which every built-in type and every derived inet / yang / nacm type with a dedicated plugin is "
+            "leaf, key, leaf-list, leafref target and leafref (chains, leafref keys), union member, annotation type (annotation "
+            "in the node's module and in another one) and default; identities of three modules; instance-identifiers to list "
+            "instances keyed by these types; validated and parse-only trees through XML, JSON, LYB, the with-defaults modes and "
+            "the chain XML -> JSON -> LYB -> XML, compared by dump (canonical values, flags, metadata) and lyd_compare (search).",
     "note": "Modelled (not verified) C: lyxml_dump_text, lyxml_parse_value, ly_getutf8/pututf8/checkutf8, json_print_string, "
             "lyjson_string, lyb_write/lyb_read with start/stop siblings, lyb_hash_siblings/lyb_generate_hash, xml_print_data "
             "(xml_print_node/inner/term/node_open/ns/meta), json_print_data (json_print_node/member/value/leaf/container/inner/"
@@ -54,6 +59,7 @@ MANIFEST = {
             "json-anydata-unqualified, json-anydata-nested-same-list, json-opaq-mixed-array, json-opaq-list-value-lost) are fixed "
             "(known_findings.d/doc.json: commits; their witnesses are regression cases of RoundTripX / WellFormedX and Examples "
             "of the Properties files; no oracle excuses them any more). Listed and open: json-opaq-array-attr (attributes of "
-            "opaque array instances in JSON), with replays and a proposed patch.",
+            "opaque array instances in JSON), json-opaq-unknown-meta, with replays and proposed patches; lyb-union-member-reresolved (the "
+            "LYB printer re-resolved the member of a union value without validation) is fixed by affc70d.",
     "technique": "Coq proof over hand-written model + differential correspondence (extracted OCaml vs C) + round-trip oracle",
 }
